@@ -1,1 +1,66 @@
-//! reference model `deque` (filled in by the property that needs it)
+//! Reference model of a byte queue with flush-delimited chunks, written from the property
+//! statement: bytes come out in the order written, exactly once; the reported length is the
+//! number of readable bytes; dropping pending frames removes only whole flush-delimited groups
+//! none of whose bytes has been handed out yet.
+#[derive(Debug, Clone, PartialEq, Eq, Hash)]
+pub struct ByteModel {
+    /// pending (byte, frame id); frame id = number of flush calls before the byte was written
+    pub pending: Vec<(u8, u32)>,
+    /// frame ids of which at least one byte has been consumed
+    pub started: Vec<u32>,
+    pub flushes: u32,
+}
+
+impl ByteModel {
+    pub fn new() -> Self {
+        ByteModel { pending: vec![], started: vec![], flushes: 0 }
+    }
+    pub fn write(&mut self, bytes: &[u8]) {
+        for b in bytes {
+            self.pending.push((*b, self.flushes));
+        }
+    }
+    pub fn flush(&mut self) {
+        self.flushes += 1;
+    }
+    /// consume n bytes from the front (n <= pending.len())
+    pub fn consume(&mut self, n: usize) -> Vec<u8> {
+        let out: Vec<(u8, u32)> = self.pending.drain(..n.min(self.pending.len())).collect();
+        for (_, f) in &out {
+            if !self.started.contains(f) {
+                self.started.push(*f);
+            }
+        }
+        out.into_iter().map(|(b, _)| b).collect()
+    }
+    pub fn len(&self) -> usize {
+        self.pending.len()
+    }
+    /// Is `remaining` (bytes still readable after a drop) a legal outcome of dropping frames?
+    /// It must be a prefix of pending; every dropped byte must belong to a frame that has not
+    /// started and that is dropped as a whole.
+    pub fn legal_drop(&self, remaining: &[u8]) -> Result<(), String> {
+        if remaining.len() > self.pending.len() {
+            return Err("more bytes readable after the drop than before".into());
+        }
+        for (i, b) in remaining.iter().enumerate() {
+            if self.pending[i].0 != *b {
+                return Err(format!("byte {i} after the drop is {b}, expected {} (not a prefix of the pending bytes)", self.pending[i].0));
+            }
+        }
+        let kept = &self.pending[..remaining.len()];
+        let dropped = &self.pending[remaining.len()..];
+        for (b, f) in dropped {
+            if self.started.contains(f) {
+                return Err(format!("byte {b} of frame {f} was dropped although that frame had started transmission"));
+            }
+            if kept.iter().any(|(_, g)| g == f) {
+                return Err(format!("frame {f} was dropped only partially (byte {b} dropped, earlier bytes kept)"));
+            }
+        }
+        Ok(())
+    }
+    pub fn apply_drop(&mut self, remaining: usize) {
+        self.pending.truncate(remaining);
+    }
+}
